@@ -45,20 +45,45 @@ META = {
 }
 
 
+KNOWN_PANIC_LEAK = "K-C17-panicking-reader-leaks-libyaml-temporaries"
+
+
+def _memcheck(rundir, seed, panic_cases):
+    env = dict(common.ENV, XT_VERIF_PANIC_CASES=panic_cases)
+    p = subprocess.run(["valgrind", "--error-exitcode=99", "--leak-check=full", "--errors-for-leak-kinds=definite", "-q",
+                        common.HARNESS_BIN, "mem", "--seed", str(seed), "--tier", "quick", "--out", rundir],
+                       stdout=subprocess.PIPE, stderr=subprocess.PIPE, env=env, timeout=3000)
+    return p.returncode, p.stderr.decode("utf-8", "replace")
+
+
 def run_valgrind(outcome, seed):
+    """Memcheck over the same runs.  Two passes: everything except panicking readers/writers must be clean; with a reader that
+    panics, the unwinding skips libyaml's own cleanup of the token it was scanning (a listed known finding): there, only leaks
+    whose allocation stack lies inside unsafe_libyaml's scanner are tolerated, and nothing else."""
     rundir = os.path.join(common.BUILD, "run", "C17_vg")
     os.makedirs(rundir, exist_ok=True)
     try:
-        p = subprocess.run(["valgrind", "--error-exitcode=99", "--leak-check=full", "--errors-for-leak-kinds=definite", "-q",
-                            common.HARNESS_BIN, "mem", "--seed", str(seed), "--tier", "quick", "--out", rundir],
-                           stdout=subprocess.PIPE, stderr=subprocess.PIPE, env=common.ENV, timeout=3000)
+        rc, err = _memcheck(rundir, seed, "none")
+        rc2, err2 = _memcheck(rundir, seed, "only")
     except (FileNotFoundError, subprocess.TimeoutExpired) as e:
         outcome.notes.append("valgrind run not completed: %s" % type(e).__name__)
         return
-    err = p.stderr.decode("utf-8", "replace")
-    outcome.extra["valgrind"] = {"exit": p.returncode, "stderr_tail": err[-400:]}
-    if p.returncode == 99 or re.search(r"Invalid (read|write)|uninitialised|definitely lost", err):
+    outcome.extra["valgrind"] = {"exit": rc, "stderr_tail": err[-400:], "exit_with_panicking_readers": rc2}
+    if rc == 99 or re.search(r"Invalid (read|write)|uninitialised|definitely lost", err):
         outcome.oracle_failures.append({"what": "valgrind memcheck reports a memory error while driving the YAML binding", "report": err[-3000:]})
+    if re.search(r"Invalid (read|write)|uninitialised|Invalid free|Mismatched free", err2):
+        outcome.oracle_failures.append({"what": "valgrind memcheck reports a memory error when the reader panics", "report": err2[-3000:]})
+    elif "definitely lost" in err2:
+        records = [r for r in err2.split("\n==") if False]
+        blocks = re.split(r"\n==\d+== \n", err2)
+        leaks = [b for b in blocks if "definitely lost" in b]
+        foreign = [b for b in leaks if "unsafe_libyaml::scanner" not in b and "unsafe_libyaml::api::yaml_string_extend" not in b]
+        listed = any(k["id"] == KNOWN_PANIC_LEAK for k in common.load_known("C17"))
+        if foreign or not listed:
+            outcome.oracle_failures.append({"what": "memory is leaked when the reader panics", "report": ("\n".join(foreign) or err2)[-3000:]})
+        else:
+            outcome.known_hits.append((KNOWN_PANIC_LEAK, "a reader that panics while libyaml is scanning a token: %d leak records, all allocated in "
+                                       "unsafe_libyaml's scanner (the unwinding skips its cleanup)" % len(leaks)))
 
 
 def run(outcome, tier, seed):
